@@ -23,7 +23,8 @@ Each directive is replaced by the item copied from /repo's *current working tree
 verbatim except for the rewrites R1..R8 below, every application of which is reported.
 
   R1  drop attributes / doc comments / visibility / `const` in front of `fn`, and `pub` on struct fields
-      `ret=<name>` names the return value: `-> T` becomes `-> (name: T)`
+      `ret=<name>` names the return value: `-> T` becomes `-> (name: T)`; `subst=A=>B` writes an associated type in the
+      signature out as the concrete type; `impl=<Trait> for=<Type>` selects a trait impl block
   R2  `likely(e)` / `unlikely(e)` -> `(e)`
   R3  `for i in a..b {B}` -> `let mut i = a; while i < b {B'; i += 1;}` with `i += 1;` inserted before every
       `continue` that targets this loop  (Verus: for-loops do not support `continue`)
@@ -132,7 +133,13 @@ def find_all_code(s, pattern):
 # ---------------------------------------------------------------------------------------------------
 
 
-def locate_impl(src, ty):
+def locate_impl(src, ty, for_ty=None):
+    if for_ty:
+        m = find_code(src, r"\bimpl(?:<[^>{]*>)?\s+%s\s+for\s+%s\b[^{;]*\{" % (re.escape(ty), re.escape(for_ty)))
+        if not m:
+            raise ExtractError("lost anchor: impl %s for %s" % (ty, for_ty))
+        o = m.end() - 1
+        return o, match_brace(src, o)
     m = find_code(src, r"\bimpl(?:<[^>{]*>)?\s+(?:[\w:<>', ]+\s+for\s+)?%s\b[^{;]*\{" % re.escape(ty))
     if not m:
         raise ExtractError("lost anchor: impl block for %s" % ty)
@@ -340,7 +347,7 @@ def extract_fn(kv, payload, notes, falsify=None):
     src = read(path)
     lo, hi = 0, len(src)
     if "impl" in kv:
-        lo, hi = locate_impl(src, kv["impl"])
+        lo, hi = locate_impl(src, kv["impl"], kv.get("for"))
     # include attribute/doc lines above the fn
     ls, fpos, bo, be = locate_fn(src, kv["name"], lo, hi)
     sig = clean_signature(src[ls:bo], notes)
@@ -386,6 +393,13 @@ def extract_fn(kv, payload, notes, falsify=None):
                 inserts.append((len(body) if nl < 0 else nl + 1, text + "\n"))
     for off, text in sorted(inserts, key=lambda x: -x[0]):
         body = body[:off] + text + body[off:]
+    if "subst" in kv:
+        # signature-only substitution of an associated type by the concrete type it stands for
+        a, b = kv["subst"].split("=>", 1)
+        if a not in sig:
+            raise ExtractError("lost anchor: `%s` not in the signature of %s" % (a, kv["name"]))
+        sig = sig.replace(a, b)
+        notes.append("R1: `%s` written out as `%s` in the signature" % (a, b))
     if "ret" in kv:
         m = re.search(r"->\s*([^{]+?)\s*(where\b.*)?$", sig, re.S)
         if not m:
